@@ -667,7 +667,8 @@ class FnExec:
         if self.is_dropped(s.value): return [Outcome("normal", st, pc)]
         self.expr(s.value, st, pc); return [Outcome("normal", st, pc)]
     def is_dropped(self, e):
-        return isinstance(e, ast.Call) and ast.unparse(e.func).startswith("self._logger.")
+        # A-LOG: logging calls have no effect on program state (their arguments are not evaluated by the executor)
+        return isinstance(e, ast.Call) and ast.unparse(e.func).startswith(("self._logger.", "logger.", "logging.", "log."))
     def s_Return(self, s, st, pc):
         v = self.expr(s.value, st, pc) if s.value is not None else Val(NONE, z3.BoolVal(True))
         return [Outcome("return", st, pc, value=v)]
